@@ -378,7 +378,6 @@ func (l *noMixConstraintImpl) EstimateIsViolated(
 	}
 	previousNoMixData := previousStopImp.ConstraintData(l).(*noMixSolutionStopData)
 	contentName := previousNoMixData.content.Name
-	contentQuantity := previousNoMixData.content.Quantity
 
 	deltaQuantity := 0
 
@@ -404,10 +403,6 @@ func (l *noMixConstraintImpl) EstimateIsViolated(
 			if previousNoMixData.tour != tour || previousNoMixData.content.Name != contentName {
 				return true, constNoPositionsHint
 			}
-			// what is on board in front of this position is what the planned
-			// stop before it carries (other units may have removed items
-			// since the first position), plus what this move added so far
-			contentQuantity = previousNoMixData.content.Quantity
 		}
 		insertMixItem, hasInsertMixItem = l.insert[moveImpl.stopPositions[idx].Stop().ModelStop()]
 		if hasInsertMixItem {
@@ -419,7 +414,11 @@ func (l *noMixConstraintImpl) EstimateIsViolated(
 		}
 		removeMixItem, hasRemoveMixItem := l.remove[moveImpl.stopPositions[idx].Stop().ModelStop()]
 		if hasRemoveMixItem {
-			if contentName != removeMixItem.Name || contentQuantity+deltaQuantity < removeMixItem.Quantity {
+			// a stop that removes takes what its own plan unit inserted
+			// before it: whatever else is on board belongs to other units
+			// (their stops further down the route remove it, and they can
+			// be un-planned on their own)
+			if contentName != removeMixItem.Name || deltaQuantity < removeMixItem.Quantity {
 				return true, constNoPositionsHint
 			}
 			deltaQuantity -= removeMixItem.Quantity
